@@ -465,7 +465,10 @@ def _export_paths_only(
     export_function = _validate_and_get_export_func(
         file_path, extensions_map, extension, overwrite
     )
-    export_function(obj, file_path, **exporter_kwargs)
+    # Write to the path that was validated: the overwrite check is made on the
+    # normalised path ('~' and environment variables expanded), so the
+    # exporter must not be handed the unexpanded spelling.
+    export_function(obj, _norm_path(file_path), **exporter_kwargs)
 
 
 def _export(obj, fp, extensions_map, extension, overwrite, exporter_kwargs=None):
@@ -500,7 +503,11 @@ def _export(obj, fp, extensions_map, extension, overwrite, exporter_kwargs=None)
             fp, extensions_map, extension, overwrite, return_extension=True
         )
 
-        with fp.open("wb") as file_handle:
+        # Open the path that was validated: the overwrite check is made on the
+        # normalised path ('~' and environment variables expanded). Opening
+        # the unexpanded spelling would write to a different file (e.g. into
+        # a directory literally called '~') without any overwrite check.
+        with _norm_path(fp).open("wb") as file_handle:
             export_function(obj, file_handle, extension=extension, **exporter_kwargs)
     else:
         # You MUST provide an extension if a file handle is given
